@@ -39,11 +39,11 @@ C06Range(i)    == St(i).hasPrice => LLe(St(i).mn, St(i).price) /\ LLe(St(i).pric
 InBox(i) == /\ ~St(i).big /\ St(i).feeMilli >= 0
             /\ St(i).rx <= 16 /\ St(i).ry <= 16 /\ St(i).ps <= 16 /\ St(i).ps >= 1 /\ St(i).rx + St(i).ry > 0
 ConfDeposit(i) ==
-  IsDeposit(i) /\ InBox(i) /\ St(i).inX <= 16 /\ St(i).inY <= 16 =>
+  IsDeposit(i) /\ St(i).accepted /\ InBox(i) /\ St(i).inX <= 16 /\ St(i).inY <= 16 =>
      LET d == Deposit(St(i).rx, St(i).ry, St(i).ps, St(i).inX, St(i).inY, 6) IN
      St(i).ax = d.ax /\ St(i).ay = d.ay /\ St(i).pc = d.pc
 ConfWithdraw(i) ==
-  IsWithdraw(i) /\ InBox(i) /\ St(i).reqPc <= St(i).ps /\ St(i).reqPc >= 1 =>
+  IsWithdraw(i) /\ St(i).accepted /\ InBox(i) /\ St(i).reqPc <= St(i).ps /\ St(i).reqPc >= 1 =>
      LET w == Withdraw(St(i).rx, St(i).ry, St(i).ps, St(i).reqPc, St(i).feeMilli, 6) IN
      IF St(i).level = "keeper" /\ w.x = 0 /\ w.y = 0
      THEN St(i).outX = 0 /\ St(i).outY = 0 /\ St(i).pc = 0          \* the keeper refuses an empty withdrawal: nothing burned
@@ -61,11 +61,16 @@ ConfKeeper(i) ==
 (* amm.CreateRangedPool divides by zero when sqrt(initial) equals sqrt(min) or sqrt(max) at 18 decimals although    *)
 (* initial differs from them; the keeper only admits prices on ticks, where neighbouring prices differ by >= 10^-5   *)
 (* relative and this cannot happen. Off-tick triples are generated on purpose; their panics are counted, not hidden. *)
+(* a request that names a coin which is not the pool's (share coin of another pool or of the same pool id in another app, *)
+(* deposit coin outside the pair) is rejected at the message; a rejected request moves nothing.                          *)
+(* (If such a request is executed, the C06 laws above judge what it did: pc is what was burned of the pool's OWN shares.)  *)
+ConfForeign(i)  == St(i).foreign # "none" => ~St(i).accepted
+ConfRejected(i) == ~St(i).accepted => IF St(i).big THEN BigLaws!NothingMoved(St(i)) ELSE Laws!NothingMoved(St(i))
 ConfNoPanic(i) == St(i).panic => IsCreate(i) /\ St(i).offTicks
 
 Formulas == <<"C06_DepositWithinOffer", "C06_DepositRateFair", "C06_WithdrawWithinShare", "C06_LastShareTakesAll",
               "C06_PerShareNotDecreasing", "C06_PriceInRange",
-              "Conf_Deposit", "Conf_Withdraw", "Conf_Booked", "Conf_KeeperIsAmm", "Conf_NoPanic">>
+              "Conf_Deposit", "Conf_Withdraw", "Conf_Booked", "Conf_KeeperIsAmm", "Conf_NoPanic", "Conf_ForeignCoinRejected", "Conf_RejectedMovesNothing">>
 Holds(f, i) ==
   CASE f = "C06_DepositWithinOffer" -> C06Offer(i)
     [] f = "C06_DepositRateFair" -> C06Rate(i)
@@ -78,6 +83,8 @@ Holds(f, i) ==
     [] f = "Conf_Booked" -> ConfBooked(i)
     [] f = "Conf_KeeperIsAmm" -> ConfKeeper(i)
     [] f = "Conf_NoPanic" -> ConfNoPanic(i)
+    [] f = "Conf_ForeignCoinRejected" -> ConfForeign(i)
+    [] f = "Conf_RejectedMovesNothing" -> ConfRejected(i)
 
 Judge == \A k \in 1..Len(Formulas) : Holds(Formulas[k], cur) \/ PrintT(<<"FAIL", Formulas[k], cur>>)
 
@@ -96,10 +103,20 @@ Fee(i) == IsWithdraw(i) /\ St(i).feeK # St(i).feeD
 CreatePanic(i) == IsCreate(i) /\ St(i).panic
 Swap(i) == St(i).op = "swap" /\ St(i).hasPrice
 RangeMiss(i) == St(i).rangeMiss # "none"
+ForeignShare(i) == IsWithdraw(i) /\ St(i).foreign \in {"otherApp", "otherPool"}
+ForeignApp(i) == IsWithdraw(i) /\ St(i).foreign = "otherApp"
+ForeignDep(i) == IsDeposit(i) /\ St(i).foreign = "notInPair"
+PoolNePair(i) == Keeper(i) /\ St(i).poolId # St(i).pairId /\ (KeeperDep(i) \/ KeeperWd(i))
+IdsDistinct(i) == Keeper(i) /\ St(i).poolId # St(i).pairId /\ St(i).poolId # St(i).appId /\ St(i).appId # St(i).pairId /\ St(i).appId # 1
+                  /\ (KeeperDep(i) \/ KeeperWd(i))
+RangedPoolNePair(i) == PoolNePair(i) /\ Ranged(i) /\ KeeperDep(i)
 Stats == PrintT(<<"STATS", [nodes |-> NLog, big |-> Count(IsBig), deposits |-> Count(IsDeposit), withdraws |-> Count(IsWithdraw),
                              creates |-> Count(IsCreate), minted |-> Count(Minted), lastShare |-> Count(LastShare),
                              keeperDeposits |-> Count(KeeperDep), keeperWithdraws |-> Count(KeeperWd), priced |-> Count(Priced),
                              ranged |-> Count(Ranged), confDeposit |-> Count(ConfDep), confWithdraw |-> Count(ConfWd), withFee |-> Count(Fee),
-                             createPanicsOffTick |-> Count(CreatePanic), swaps |-> Count(Swap), rangeMiss |-> Count(RangeMiss)]>>)
+                             createPanicsOffTick |-> Count(CreatePanic), swaps |-> Count(Swap), rangeMiss |-> Count(RangeMiss),
+                             foreignCoinAttempts |-> Count(ForeignShare), foreignAppCoinAttempts |-> Count(ForeignApp),
+                             foreignDepositAttempts |-> Count(ForeignDep), poolIdNePairId |-> Count(PoolNePair),
+                             idsPairwiseDistinct |-> Count(IdsDistinct), rangedDepositPoolIdNePairId |-> Count(RangedPoolNePair)]>>)
 AllSeen == Stats /\ TLCGet("stats").distinct = NLog
 =============================================================================
